@@ -1000,6 +1000,10 @@ def _nested_shape_assert(facts, b):
                 # somewhere in the asserted expression: Iterator::all with a closure comparing .dimensions of two arrays
                 for x in walk(a):
                     if x.get("k") == "Call" and callee(x) == "core::iter::traits::iterator::Iterator::all":
+                        # every contained array (after the one they are compared with) must be examined
+                        if any(y.get("k") == "Call" and (callee(y) or "").rsplit("::", 1)[-1] in ("skip", "take", "step_by", "filter", "skip_while", "take_while", "nth")
+                               for y in walk(x["args"][0])):
+                            return False
                         clo = strip(x["args"][1])
                         if clo.get("k") == "Closure":
                             cb = facts.body(clo["closure"])
